@@ -55,7 +55,11 @@ PATHS = {
     ("T::one", 0): dict(g="(@one A)", ret="elem", atom=True),
     ("Zero::zero", 0): dict(g="(@zero A)", ret="elem", atom=True),
     ("One::one", 0): dict(g="(@one A)", ret="elem", atom=True),
-    ("Vector::new", 2): dict(g="repeat {1} {0}", ret="vec", args=["usize", "elem"]),
+    ("Vector::new", 2): [dict(g="repeat {1} {0}", ret="vec", args=["usize", "elem"]),
+                         dict(g="repeat {1} {0}", ret="vecn", args=["usize", "usize"])],
+    ("std::cmp::min", 2): [dict(g="Z.min {0} {1}", ret="isize", args=["isize", "isize"]), dict(g="Nat.min {0} {1}", ret="usize", args=["usize", "usize"])],
+    ("std::cmp::max", 2): [dict(g="Z.max {0} {1}", ret="isize", args=["isize", "isize"]), dict(g="Nat.max {0} {1}", ret="usize", args=["usize", "usize"])],
+    ("Matrix::empty", 0): dict(g="(@mat_empty A)", ret="mat", atom=True),
     ("Vector::empty", 0): dict(g="(@nil (T A))", ret="vec", atom=True),
     ("Vec::new", 0): dict(g="(@nil (T A))", ret="vec", atom=True),
     ("Vec::with_capacity", 1): dict(g="(@nil (T A))", ret="vec", atom=True, args=["usize"]),
@@ -245,4 +249,61 @@ MODULES["Tridiag"] = dict(
         dict(name="tmul_assign_s", file=TRI, impl=r"MulAssign<T>forTridiagonal<T>$", fn="mul_assign"),
         dict(name="tdiv_assign_s", file=TRI, impl=r"DivAssign<T>forTridiagonal<T>$", fn="div_assign"),
         dict(name="tmul", file=TRI, impl=r"Mul<&Vector<T>>for&Tridiagonal<T>$", fn="mul"),
+    ])
+
+# ---------------------------------------------------------------------------------------------------- Banded (Model/Banded.v)
+GTYPES["band"] = "(banded A)"
+RUST_TYPES.append((r"^Banded<(T|f64)>$", "band"))
+FIELDS.update({("band", "n"): ("(bn {0})", "usize"), ("band", "m1"): ("(bm1 {0})", "usize"), ("band", "m2"): ("(bm2 {0})", "usize"),
+               ("band", "compact"): ("(compact {0})", "mat")})
+SETFIELDS.update({("band", "n"): "(mkB {1} (bm1 {0}) (bm2 {0}) (compact {0}))", ("band", "m1"): "(mkB (bn {0}) {1} (bm2 {0}) (compact {0}))",
+                  ("band", "m2"): "(mkB (bn {0}) (bm1 {0}) {1} (compact {0}))", ("band", "compact"): "(mkB (bn {0}) (bm1 {0}) (bm2 {0}) {1})"})
+STRUCTS["Banded"] = (["n", "m1", "m2", "compact"], "(mkB {0} {1} {2} {3})", "band")
+METHODS.update({
+    ("mat", "fill", 1): dict(g="fill {0} {1}", ret="unit", fallible=True, out=["recv"], args=["elem"]),
+    ("mat", "resize", 2): dict(g="resize {0} {1} {2}", ret="unit", fallible=True, out=["recv"], args=["usize", "usize"]),
+    ("mat", "fill_col", 2): dict(g="fill_col {0} {1} {2}", ret="unit", fallible=True, out=["recv"], args=["usize", "elem"]),
+    ("band", "decompose", 4): dict(g="decompose_gen false {0} {1} {2} {3}", ret="unit", fallible=True, out=["arg0", "arg1", "arg2", "arg3"],
+                                   args=["mat", "mat", "vecn", "elem"]),
+})
+BINOPS.update({
+    ("+", "mat", "mat"): dict(g="madd {0} {1}", ret="mat", fallible=True),
+    ("-", "mat", "mat"): dict(g="msub {0} {1}", ret="mat", fallible=True),
+    ("*", "mat", "elem"): dict(g="mscale {0} {1}", ret="mat", fallible=True),
+    ("/", "mat", "elem"): dict(g="mdiv {0} {1}", ret="mat", fallible=True),
+})
+UNOPS[("-", "mat")] = dict(g="mneg {0}", ret="mat", fallible=True)
+ASSIGNOPS.update({
+    ("+=", "mat", "mat"): dict(g="madd_assign {0} {1}", ret="mat", fallible=True),
+    ("-=", "mat", "mat"): dict(g="msub_assign {0} {1}", ret="mat", fallible=True),
+    ("*=", "mat", "elem"): dict(g="mmul_assign_scalar {0} {1}", ret="mat", fallible=True),
+    ("/=", "mat", "elem"): dict(g="mdiv_assign_scalar {0} {1}", ret="mat", fallible=True),
+    ("+=", "mat", "elem"): dict(g="madd_assign_scalar {0} {1}", ret="mat", fallible=True),
+    ("-=", "mat", "elem"): dict(g="msub_assign_scalar {0} {1}", ret="mat", fallible=True),
+})
+BND = "src/banded.rs"
+BND_N = r"^<T:Clone\+Copy\+Number\+PartialOrd\+Signed>Banded<T>$"
+MODULES["Banded"] = dict(
+    imports="From OV Require Import Base.Panic Base.Arith Model.Vector Model.Matrix Model.Banded gen.SrcPrelude.",
+    funcs=[
+        dict(name="band_new", file=BND, impl=BND_N, fn="new"),
+        dict(name="band_fill", file=BND, impl=BND_N, fn="fill"),
+        dict(name="band_resize", file=BND, impl=BND_N, fn="resize"),
+        dict(name="band_fill_band", file=BND, impl=BND_N, fn="fill_band"),
+        dict(name="decompose", file=BND, impl=BND_N, fn="decompose"),
+        dict(name="band_det", file=BND, impl=BND_N, fn="det"),
+        dict(name="band_solve", file=BND, impl=BND_N, fn="solve"),
+        dict(name="band_get", file=BND, impl=r"Index<\(usize,usize\)>forBanded<T>$", fn="index"),
+        dict(name="band_neg", file=BND, impl=r"Negfor&Banded<T>$", fn="neg"),
+        dict(name="band_add", file=BND, impl=r"Add<&Banded<T>>for&Banded<T>$", fn="add"),
+        dict(name="band_sub", file=BND, impl=r"Sub<&Banded<T>>for&Banded<T>$", fn="sub"),
+        dict(name="band_scale", file=BND, impl=r"Mul<T>for&Banded<T>$", fn="mul"),
+        dict(name="band_div", file=BND, impl=r"Div<T>for&Banded<T>$", fn="div"),
+        dict(name="band_add_assign", file=BND, impl=r"AddAssign<&Banded<T>>forBanded<T>$", fn="add_assign"),
+        dict(name="band_sub_assign", file=BND, impl=r"SubAssign<&Banded<T>>forBanded<T>$", fn="sub_assign"),
+        dict(name="band_mul_assign_s", file=BND, impl=r"MulAssign<T>forBanded<T>$", fn="mul_assign"),
+        dict(name="band_div_assign_s", file=BND, impl=r"DivAssign<T>forBanded<T>$", fn="div_assign"),
+        dict(name="band_add_assign_s", file=BND, impl=r"AddAssign<T>forBanded<T>$", fn="add_assign"),
+        dict(name="band_sub_assign_s", file=BND, impl=r"SubAssign<T>forBanded<T>$", fn="sub_assign"),
+        dict(name="band_mul", file=BND, impl=r"Mul<&Vector<T>>for&Banded<T>$", fn="mul"),
     ])
